@@ -280,7 +280,7 @@ class Server(Acceptor):
                               wl=self.wl,
                               timeout=self.tymeout)
             if ca in self.ixes and self.ixes[ca] is not remoter:
-                self.shutdownIx(ca)
+                self.closeIx(ca)  # shutdown and close replaced connection
             self.ixes[ca] = remoter
 
 
